@@ -51,3 +51,68 @@ prop("C15",
      level_note="Trusted: ref.CRC16 (check value 0x31C3) and ref.Slot (checked on CLUSTER KEYSLOT examples from the specification). ChoseSlotInRange is only exercised with the checkpoint prefix, as the tool does.",
      assumptions=["keys are byte strings; Go strings with invalid UTF-8 are included",
                   "slot ranges satisfy 0<=l<=r<=16383 (as produced by cluster topology discovery)"])
+
+prop("C01",
+     title="RDB parsing delivers every key exactly, whatever its encoding",
+     quick=[{"re": "^TestC01$", "checks": 4000},
+            {"re": "^TestC01Big$", "checks": 7}],
+     thorough=[{"re": "^TestC01$", "checks": 400000, "shards": 8, "timeout": 1500},
+               {"re": "^TestC01Big$", "checks": 240, "shards": 6, "timeout": 1500},
+               {"re": "^$", "fuzz": "^FuzzC01$", "fuzztime": "120s", "checks": 1, "exclusive": True, "timeout": 500}],
+     rule="RDB files written by the harness' own RDB writer from a drawn logical keyspace: 0-4 databases (numbers up to 70000, "
+          "repeated selectors), 0-8 keys each, every physical encoding (raw/int8/int16/int32/LZF strings and keys; list, set, "
+          "zset text scores incl. +-inf, zset2, hash, zipmap incl. free bytes / len byte 254 / 253-prefixed lengths, ziplist "
+          "list/zset/hash with every entry encoding and 1/5-byte prevlen, intset 16/32/64, quicklist, stream with cgroups/PEL/"
+          "consumers and 64-bit ids), expiry s/ms, idle, freq, aux (incl. lua), resizedb, module-aux (all value opcodes), "
+          "versions 1-9, 6/14/32-bit lengths canonical or wider; read through a fragmenting reader, via rdb.NewLoader or "
+          "utils.NewRDBLoader. Big-hash cases: one hash of 16-40 MiB whose pair boundaries are placed exactly at / one byte "
+          "around the 16 MiB chunk limit, on the last pair, or giving 2-3 chunks, between other keys. Oracle: expected record "
+          "list known by construction (db, key, type, expireat ms, idle, freq, payload == type+exact value bytes+LE16(6)+"
+          "reference CRC-64), lua records, Footer()==nil; chunks concatenate to the exact pair bytes, counts add up, next "
+          "key intact. Non-trivial: >=2 records and (non-raw encoding or extra opcode or >1 db); every big-hash case. "
+          "Distinct = hash of the file bytes.",
+     technique="property-based testing (rapid) with a construction oracle: files are produced by an independent RDB writer, expected records are known by construction; structure-aware native fuzzing (rapid.MakeFuzz) in the thorough tier",
+     level_text="Generated-input search against a byte-exact construction oracle over all encodings the statement lists; thousands of files per quick run, hundreds of thousands plus coverage-guided fuzzing in thorough; chunk-limit boundaries are placed by construction rather than hoped for.",
+     level_note="Trusted: the harness RDB writer (gen/rdb.go, gen/rdbfile.go) and ref.CRC64. Bounds: <=8 keys/db, collections <=300 elements except the big hash, ziplist <65535 entries; 64-bit lengths only for numbers >= 2^32; files always carry the 8-byte checksum trailer.",
+     assumptions=["files always end with EOF opcode + 8-byte CRC (also under header versions 1-4)",
+                  "a zero checksum (rdbchecksum no) is not generated",
+                  "NaN text scores (byte 253) are not generated: Redis never stores NaN scores",
+                  "module value types 6/7 are outside the stated domain"])
+
+prop("C11",
+     title="Checksums are the Redis CRC-64 of the covered bytes; corruption is detected",
+     quick=[{"re": "^TestC11$", "checks": 500}],
+     thorough=[{"re": "^TestC11$", "checks": 40000, "shards": 10, "timeout": 1700}],
+     rule="(digest) byte strings 0-64000 bytes with 1-8 generated write boundaries through pkg/rdb/digest, the in-repo cupcake crc64 "
+          "and the module copy linked by verifyDump/CheckVersionChecksum: Sum64/Sum/Reset/Digest == reference CRC-64 (Jones, reflected, "
+          "init 0; derived bit-by-bit, check value e9c6d914c4b8d9ca). (rdb) small RDB files written locally so that every pure data "
+          "position (raw string contents, expiry values, the 8 checksum bytes) is known: intact file loads, and for EVERY such position "
+          "one substituted byte value makes the load fail; plus whole-trailer replacements (zero, all ones, +1, byte-swapped). (payload) "
+          "DUMP payloads produced by the parser from generated files and by rdb.EncodeDump: verify under rdb.DecodeDump/verifyDump and "
+          "utils.CheckVersionChecksum, trailer == reference CRC; every single-byte substitution at EVERY position, versions 7..65535 "
+          "with recomputed CRC, every length < 10 and every truncation of the trailer are rejected by both checkers. Non-trivial: digest "
+          "input >= 9 bytes in >= 2 writes; file with >= 3 keys; payload >= 14 bytes. Distinct = hash of the artefact.",
+     technique="property-based testing (rapid): differential against a reference CRC-64 over generated chunkings; per-artefact exhaustive single-byte fault injection with an accept/reject oracle",
+     level_text="Generated artefacts with exhaustive per-artefact substitution at all data/trailer positions (the evidence counts positions tried); reference CRC derived bit-by-bit from the polynomial. Testing-level: detects a wrong table entry, a skipped comparison, endianness/version-gate slips; no absence claim.",
+     level_note="Trusted: ref.CRC64. Substitutions in RDB length/opcode bytes are excluded by construction (they change the parse, not just the data); one replacement value per position per artefact.",
+     assumptions=["a payload that passes verifyDump but fails later in the value parser is not a checksum verdict (counted, left to C12)",
+                  "an all-zero RDB checksum counts as 'checksum differs' and must be rejected (the tool refuses sources with rdbchecksum no)"])
+
+prop("C12",
+     title="Value and RDB-file serialisation round-trips through the parser",
+     quick=[{"re": "^TestC12$", "checks": 4000}],
+     thorough=[{"re": "^TestC12$", "checks": 600000, "shards": 8, "timeout": 1700},
+               {"re": "^$", "fuzz": "^FuzzC12$", "fuzztime": "120s", "checks": 1, "exclusive": True, "timeout": 500}],
+     rule="(encdec) logical values String/List/Set/Hash/ZSet (0-300 elements; arbitrary bytes, integer-looking strings at the int8/16/24/32/64 "
+          "limits, leading zeros/signs/spaces, lengths 62-65/252-256/300; scores from all float64 bit patterns incl. NaN, -0, subnormals, "
+          "+-inf): DecodeDump(EncodeDump(v)) == v with order, NaN==NaN, sign of zero kept. (compact) the same logical values serialized by "
+          "the harness in every compact encoding (ziplist list/zset/hash with every entry encoding, intset 16/32/64, zipmap incl. zmlen 254, "
+          "free bytes, items of 252-256/300/70000 bytes, quicklist, LZF blobs, int strings): DecodeDump == the value it was built from (lists "
+          "ordered, sets/hashes/zsets as sets/maps). (entry) BinEntry.ObjEntry().BinEntry() keeps db/key/type/expireat and the value. (file) "
+          "rdb.NewEncoder over 0-10 (db,key,expiry,object) with dbs up to 70000 in any order -> NewLoader returns the same list, Footer()==nil. "
+          "Non-trivial: >=2 elements (compact: and a compact encoding); file with >=3 objects in >=2 dbs. Distinct = hash of payload/file bytes.",
+     technique="property-based testing (rapid): round-trip oracle and construction oracle (payloads built from a known logical value by an independent writer); structure-aware native fuzzing in the thorough tier",
+     level_text="Generated-input search over all encodings with oracles that know the expected logical value by construction; boundary dictionaries for integer strings and lengths. Testing-level evidence over a very large but bounded input family.",
+     level_note="Trusted: gen/rdb.go writer (ziplist/intset/zipmap/quicklist layouts transcribed from Redis' ziplist.c/intset.c/zipmap.c), sameObj comparison. Bounds: <=300 elements, ziplists <65535 entries.",
+     assumptions=["NaN scores are only generated for the EncodeDump round trip (Redis never stores NaN)",
+                  "sets, hashes and sorted sets decoded from compact encodings are compared as sets/maps (Redis materialises unordered structures); lists keep order"])
